@@ -213,9 +213,20 @@ def check_history(case, ev):
     return None
 
 
+def _seed_random(case):
+    """netconan draws a missing salt from the `random` module, which Hypothesis resets to the same
+    state for every example: start it from a generated value instead, so that the generated salts
+    vary from case to case (and stay a function of the case)."""
+    import random
+
+    if case.get("rseed") is not None:
+        random.seed(case["rseed"])
+
+
 def check_nosalt(case, ev):
     opts = dict(case["opts"], cfg=dict(case["opts"]["cfg"], salt=None))
     text = case["text"]
+    _seed_random(case)
     with core.capture_logs(logging.WARNING) as recs:
         out1, exc = guarded(lambda: core.run_io(mkfa(opts), text))
     if exc is not None:
@@ -251,6 +262,7 @@ def check_nosalt_main(case, ev):
             fh.write(case["text"])
         base = ["-i", os.path.join(d, "in.cfg")] + (["-p"] if pwd else []) + (["-a"] if ip else []) + (["-w", ",".join(o["words"])] if words else []) + (["-n", ",".join(o["asns"])] if asn else [])
         ev.case(case, True, ["via-main"])
+        _seed_random(case)
         for k in (1, 2):
             out1 = os.path.join(d, "out%d.cfg" % k)
             with core.capture_logs(logging.WARNING) as recs:
@@ -262,7 +274,10 @@ def check_nosalt_main(case, ev):
             if not mm:
                 return Finding("nosalt/generated-salt-not-reported:%s" % ("first-run" if k == 1 else "later-run-in-the-same-process"), "run %d through main(): WARNING records %r" % (k, recs[:3]), case)
             out2 = os.path.join(d, "re%d.cfg" % k)
-            _, exc = guarded(main, base + ["-o", out2, "-s", mm.group(1)])
+            try:
+                _, exc = guarded(main, base + ["-o", out2, "-s", mm.group(1)])
+            except SystemExit as e:
+                return Finding("nosalt/reported-salt-refused-by-the-command-line", "run %d reported salt %r; re-running with -s <that salt> exits with %r" % (k, mm.group(1), e.code), case)
             if exc is not None:
                 return core.exc_finding(exc, case, "main/")
             if open(out1, "rb").read() != open(out2, "rb").read():
@@ -272,7 +287,56 @@ def check_nosalt_main(case, ev):
     return None
 
 
-REPLAY = {"nosalt_main": check_nosalt_main, "seeds": check_seeds, "history": check_history, "nosalt": check_nosalt}
+def check_bigdir(case, ev):
+    """A directory of several files of a few hundred lines each, with different secrets and addresses
+    in every file, anonymized repeatedly with the same salt and options (and an IP-map dump): every
+    run must give the same bytes.  case: {nfiles, nlines, tag, runs}"""
+    import os
+    import shutil
+    import tempfile
+
+    from netconan.anonymize_files import anonymize_files
+
+    d = tempfile.mkdtemp(prefix="vf-c13b-")
+    try:
+        for i in range(case["nfiles"]):
+            p_ = os.path.join(d, "in", "s%d" % (i % 3), "r%02d.cfg" % i)
+            os.makedirs(os.path.dirname(p_), exist_ok=True)
+            with open(p_, "w") as fh:
+                for j in range(case["nlines"]):
+                    h = core.derive("bigdir", case["tag"], i, j)
+                    fh.write(["username u%d password Pw%x\n" % (j, h & 0xFFFFFF), " ip address %d.%d.%d.%d 255.255.255.0\n" % (11 + (h >> 24) % 200, (h >> 16) & 255, (h >> 8) & 255, h & 255), "snmp-server community Comm%x ro\n" % (h & 0xFFFFF), "neighbor 2001:db8:%x::%x remote-as 65001\n" % ((h >> 16) & 0xFFFF, h & 0xFFFF), "enable secret Sec%x\n" % (h & 0xFFFFFF)][j % 5])
+        ref = None
+        for k in range(case["runs"]):
+            out = os.path.join(d, "out%d" % k)
+            _, exc = guarded(anonymize_files, os.path.join(d, "in"), out, True, True, salt="Tsalt", dumpfile=os.path.join(d, "dump%d" % k))
+            if exc is not None:
+                return core.exc_finding(exc, case, "anonymize_files/")
+            tree = {}
+            for root, _dirs, files in os.walk(out):
+                for f in files:
+                    tree[os.path.relpath(os.path.join(root, f), out)] = open(os.path.join(root, f), "rb").read()
+            dump = open(os.path.join(d, "dump%d" % k), "rb").read()
+            if ref is None:
+                ref = (tree, dump)
+                continue
+            if tree != ref[0]:
+                bad = sorted(r for r in ref[0] if tree.get(r) != ref[0][r])
+                return Finding("bigdir/repeated-run-gives-different-output", "run %d of the same directory with the same salt differs from run 0 in %r" % (k, bad[:4]), case)
+            if dump != ref[1]:
+                return Finding("bigdir/repeated-run-gives-different-ip-map-dump", "run %d: dump differs from run 0" % k, case)
+    finally:
+        shutil.rmtree(d, ignore_errors=True)
+    ev.case(case, case["nfiles"] >= 2 and case["nlines"] >= 200, ["directory-of-long-files", "files%d" % case["nfiles"]])
+    return None
+
+
+def t_bigdir(shard, nshards, seed, ev, known, n=3):
+    cases = [{"nfiles": 3 + (core.derive("bd", seed, k) % 6), "nlines": 300 + core.derive("bdl", seed, k) % 500, "tag": core.derive("bdt", seed, k) % 100000, "runs": 3} for k in range(n * nshards) if k % nshards == shard]
+    return core.enum_drive(cases, check_bigdir, ev, known, "bigdir")
+
+
+REPLAY = {"bigdir": check_bigdir, "nosalt_main": check_nosalt_main, "seeds": check_seeds, "history": check_history, "nosalt": check_nosalt}
 
 # ---------------------------------------------------------------- generators
 
@@ -349,7 +413,7 @@ def _history_case(draw):
 @st.composite
 def _nosalt_case(draw):
     o = draw(_opts())
-    return {"opts": o, "text": draw(_text([o]))}
+    return {"opts": o, "text": draw(_text([o])), "rseed": draw(st.integers(0, 2**32 - 1))}
 
 
 def t_seeds(shard, nshards, seed, ev, known, n=40, seeds=(0, 1, 2, 3)):
@@ -395,5 +459,6 @@ def plan(tier):
         Task("seeds", t_seeds, shards=4 if q else 16, n=40 if q else 600, seeds=(0, 1, 2, 3) if q else (0, 1, 2, 3, 4, 5, 6, 7, "random")),
         Task("history", t_history, shards=6 if q else 16, n=25 if q else 600),
         Task("nosalt", t_nosalt, shards=1 if q else 4, n=150 if q else 3000),
-        Task("nosalt_main", t_nosalt_main, shards=1 if q else 4, n=40 if q else 600),
+        Task("bigdir", t_bigdir, shards=3 if q else 16, n=2 if q else 12),
+        Task("nosalt_main", t_nosalt_main, shards=2 if q else 8, n=120 if q else 1500),
     ]
